@@ -212,11 +212,14 @@ Qed.
 (* ------------------------------------------------------------------ RFC 7234 cache of an endpoint *)
 
 Definition hc_areq (fx8 : bool) (H : string -> string) (c : hc_cfg) (x : hc_req) : areq :=
-  {| a_key := Some (hc_key H c); a_fresh := (OAllow (hc_result c x), 1); a_store := hc_stores fx8 c;
-     a_recheck := OAllow |}.
+  {| a_key := if hc_looks_up fx8 c then Some (hc_key H c) else None;
+     a_fresh := (OAllow (hc_result c x), 1); a_store := hc_stores fx8 c; a_recheck := OAllow |}.
 
 Lemma hc_exec_aexec fx8 H c cch x : hc_exec fx8 H c cch x = aexec cch (hc_areq fx8 H c x).
-Proof. unfold hc_exec, aexec, hc_areq. simpl. destruct (lookup _ cch); reflexivity. Qed.
+Proof.
+  unfold hc_exec, aexec, hc_areq. simpl. destruct (hc_looks_up fx8 c); simpl; [|reflexivity].
+  destruct (lookup _ cch); reflexivity.
+Qed.
 
 Lemma hc_run_arun fx8 H c : forall h cch, hc_run fx8 H c cch h = arun cch (map (hc_areq fx8 H c) h).
 Proof.
@@ -259,6 +262,26 @@ Proof.
   - rewrite arun_nostore; [now rewrite map_map|].
     intros a I. apply in_map_iff in I as (x & <- & _). exact S.
 Qed.
+
+Lemma exists_pair_never {A} (f : A -> A -> bool) : (forall a b, f a b = false) -> forall l, exists_pair f l = false.
+Proof.
+  intros F l. induction l as [|x l IH]; [reflexivity|]. simpl. rewrite IH, orb_false_r.
+  clear IH. induction l as [|y l IH]; [reflexivity|]. simpl. now rewrite !F, IH.
+Qed.
+
+(** with the repair no guard is left: the RFC 7234 cache is transparent on every history *)
+Lemma repaired_no_guard c h : g_F8 true c h = false /\ g_F9 true c h = false.
+Proof.
+  unfold g_F8, g_F9, hc_stores. simpl.
+  destruct (hc_cacheable c); simpl; auto.
+  destruct (hc_vary c) as [|v vs] eqn:V; simpl; auto.
+  destruct (hc_is_post c); simpl; auto. split; auto.
+  apply exists_pair_never. intros a b. unfold hc_vary_part. now rewrite V.
+Qed.
+
+Theorem hc_cache_transparent_repaired : forall H c h,
+  map sr_out (hc_run true H c [] h) = map (fun x => OAllow (hc_result c x)) h.
+Proof. intros H c h. destruct (repaired_no_guard c h). now apply hc_cache_transparent. Qed.
 
 Definition w_hc (method : string) (vary : list string) : hc_cfg :=
   {| hc_url := "http://ctx/h/x"; hc_method := method; hc_vary := vary; hc_cacheable := true |}.
